@@ -1,14 +1,18 @@
 (* C03 — Stopping-type asynchronous Hyperband decides by the documented quantile rule.
-   Only statements; every proof is [exact <lemma of proofs/RungProofs.v>]. *)
+   Only statements; every proof is [exact <lemma of proofs/RungProofs.v>].
+   Model: model/Rung.v (Rung, quantile, StoppingRungSystem / RUSHStoppingRungSystem.on_task_report,
+   HyperbandBracketManager, the deciding part of HyperbandScheduler).  Metrics are exact rationals:
+   the theorems are about the exact rule; the driver accepts either answer when a metric is within
+   1e-9 (relative) of the cutoff ("equal up to floating-point round-off may go either way"). *)
 From Verif Require Import model.Base model.Rung proofs.RungProofs.
 From Coq Require Import Permutation Sorting.Sorted.
 Open Scope Q_scope.
 
-(* Rung.quantile as coded (virt_index / index / frac_part, reversed position and 1-g in mode max)
-   is the textbook numpy linear-interpolation quantile of the ascending-sorted metrics, with
-   q (mode min) or 1-q (mode max): for every rung with >= 2 entries, kept best first, every
-   0 < q < 1, and EVERY ascending arrangement [a] of its metric values; in particular the
-   sanity assert inside Rung.quantile cannot fail. *)
+(* (1) Rung.quantile as coded (virt_index / index / frac_part; reversed position and 1-g in mode max)
+   is the textbook numpy linear-interpolation quantile of the ascending-sorted metrics, at q
+   (mode min) or 1-q (mode max): for every rung with >= 2 entries kept best first, every 0 < q < 1
+   and EVERY ascending arrangement [a] of its metric values. In particular the sanity assert
+   inside Rung.quantile cannot fire. *)
 Theorem rung_quantile_is_numpy_linear :
   forall (md : mode) (pq : Q) (data : list entry) (a : list Q),
     best_first md data -> (2 <= length data)%nat -> 0 < pq < 1 ->
@@ -16,3 +20,144 @@ Theorem rung_quantile_is_numpy_linear :
     exists v, rung_quantile md pq data = QVal v /\ v == np_quantile a (quantile_level md pq).
 Proof. exact RungProofs.rung_quantile_is_numpy_linear. Qed.
 Print Assumptions rung_quantile_is_numpy_linear.
+
+(* the reference sort used in [rule_b] is an ascending sort *)
+Theorem c03_reference_sort : forall l, Sorted Qle (sort_asc l) /\ Permutation (sort_asc l) l.
+Proof. exact sort_asc_is_sort. Qed.
+Print Assumptions c03_reference_sort.
+
+(* [rule_b] is the documented rule: continue iff fewer than two entries (own included) or the own
+   metric is no worse than the numpy quantile of all metrics at the rung incl. own *)
+Theorem c03_rule_is_documented_rule :
+  forall md pq ms own,
+    rule_b md pq ms own = true <->
+    (length ms < 2)%nat \/
+    let c := np_quantile (sort_asc ms) (quantile_level md pq) in
+    match md with Min => own <= c | Max => c <= own end.
+Proof. exact rule_b_spec. Qed.
+Print Assumptions c03_rule_is_documented_rule.
+
+(* In (2)-(6): [reached cfg levels brackets evs] is the scheduler state after an ARBITRARY event
+   sequence [evs] (suggest with any bracket, reports in any order with any resources and metrics,
+   remove / complete / error calls, also for unknown trials) from the initial state for rung
+   levels 0 < r_1 < ... < r_k < max_t; a trial is [running] when its last decision is CONTINUE. *)
+
+(* (2) decision at one of the trial's own rung levels (bracket offset: the trial's rungs are
+   [milestone_rungs (skip_of cfg b)] of the system of its bracket b) where it is not yet recorded:
+   the report is entered into exactly that rung, nothing else changes, and the trial continues
+   iff the documented rule holds for the metrics recorded there plus its own; otherwise it is
+   stopped. *)
+Theorem c03_decision_rule :
+  forall cfg levels brackets evs t r m b sys pre rg post,
+  wf_levels levels (c_max_t cfg) -> c_rush cfg = None ->
+  let st := reached cfg levels brackets evs in
+  running st t -> (1 <= r < c_max_t cfg)%Z -> assoc_get (s_task st) t = Some b ->
+  nth_error (s_sys st) (sys_id cfg b) = Some sys ->
+  milestone_rungs (skip_of cfg b) (rs_rungs sys) = pre ++ rg :: post ->
+  r_level rg = r -> ~ In t (trial_ids rg) ->
+  let continues := rule_b (c_mode cfg) (r_quant rg) (m :: metrics (r_data rg)) m in
+  let st1 := {| s_sys := list_set (s_sys st) (sys_id cfg b)
+                  {| rs_rungs := (pre ++ rung_add (c_mode cfg) rg t m :: post)
+                                   ++ skipped_rungs (skip_of cfg b) (rs_rungs sys);
+                     rs_thr := rs_thr sys |};
+                s_task := s_task st; s_active := s_active st |} in
+  on_trial_result cfg st t r m =
+    if continues then (st1, Dec CONTINUE) else (cleanup st1 t STOP, Dec STOP).
+Proof. exact c03_rule_at_rung. Qed.
+Print Assumptions c03_decision_rule.
+
+(* (3) a report below max_t that is not at one of the trial's own rung levels, or at a rung where
+   the trial is already recorded, changes nothing and the trial continues *)
+Theorem c03_decisions_only_at_own_rung_levels :
+  forall cfg levels brackets evs t r m b,
+  wf_levels levels (c_max_t cfg) ->
+  let st := reached cfg levels brackets evs in
+  running st t -> (1 <= r < c_max_t cfg)%Z -> assoc_get (s_task st) t = Some b ->
+  (forall rg, In rg (own_rungs cfg st b) -> r_level rg = r -> In t (trial_ids rg)) ->
+  on_trial_result cfg st t r m = (st, Dec CONTINUE).
+Proof. exact c03_continue_off_rung. Qed.
+Print Assumptions c03_decisions_only_at_own_rung_levels.
+
+(* (4) a running trial reporting resource >= max_t is stopped (both scheduler types) *)
+Theorem c03_stopped_at_max_resource :
+  forall cfg levels brackets evs t r m,
+  wf_levels levels (c_max_t cfg) ->
+  let st := reached cfg levels brackets evs in
+  running st t -> (1 <= r)%Z -> (c_max_t cfg <= r)%Z ->
+  on_trial_result cfg st t r m = (cleanup st t STOP, Dec STOP).
+Proof. exact c03_stop_at_max. Qed.
+Print Assumptions c03_stopped_at_max_resource.
+
+(* (5) every trial is recorded at most once in every rung of every system, and every rung is
+   kept sorted best first, after any event sequence *)
+Theorem c03_enters_once :
+  forall cfg levels brackets evs,
+  wf_levels levels (c_max_t cfg) ->
+  forall sys rg, In sys (s_sys (reached cfg levels brackets evs)) -> In rg (rs_rungs sys) ->
+    NoDup (trial_ids rg) /\ best_first (c_mode cfg) (r_data rg).
+Proof. exact RungProofs.c03_enters_once. Qed.
+Print Assumptions c03_enters_once.
+
+(* (6) order independence: the decision depends on the history only through the MULTISET of
+   metrics recorded at the rung (two arbitrary histories, possibly different brackets) *)
+Theorem c03_order_independence :
+  forall cfg levels brackets evs1 evs2 t r m b1 b2 sys1 sys2 pre1 rg1 post1 pre2 rg2 post2,
+  wf_levels levels (c_max_t cfg) -> c_rush cfg = None ->
+  let st1 := reached cfg levels brackets evs1 in
+  let st2 := reached cfg levels brackets evs2 in
+  running st1 t -> running st2 t -> (1 <= r < c_max_t cfg)%Z ->
+  assoc_get (s_task st1) t = Some b1 -> assoc_get (s_task st2) t = Some b2 ->
+  nth_error (s_sys st1) (sys_id cfg b1) = Some sys1 -> nth_error (s_sys st2) (sys_id cfg b2) = Some sys2 ->
+  milestone_rungs (skip_of cfg b1) (rs_rungs sys1) = pre1 ++ rg1 :: post1 ->
+  milestone_rungs (skip_of cfg b2) (rs_rungs sys2) = pre2 ++ rg2 :: post2 ->
+  r_level rg1 = r -> r_level rg2 = r -> ~ In t (trial_ids rg1) -> ~ In t (trial_ids rg2) ->
+  r_quant rg1 = r_quant rg2 ->
+  Permutation (metrics (r_data rg1)) (metrics (r_data rg2)) ->
+  snd (on_trial_result cfg st1 t r m) = snd (on_trial_result cfg st2 t r m).
+Proof. exact RungProofs.c03_order_independence. Qed.
+Print Assumptions c03_order_independence.
+
+(* the rule itself is a function of the multiset *)
+Theorem c03_rule_depends_on_multiset :
+  forall md pq ms ms' own, Permutation ms ms' -> rule_b md pq ms own = rule_b md pq ms' own.
+Proof. exact rule_b_perm. Qed.
+Print Assumptions c03_rule_depends_on_multiset.
+
+(* (7) RUSH stopping variant: continue iff the base rule holds and (the trial is a threshold
+   candidate, id < num_threshold_candidates, or its metric is no worse than the threshold stored
+   for that level); a surviving threshold candidate updates the stored threshold to the better of
+   the old threshold and its metric. *)
+Theorem c03_rush_decision_rule :
+  forall cfg levels brackets evs t r m b sys pre rg post n,
+  wf_levels levels (c_max_t cfg) -> c_rush cfg = Some n ->
+  let st := reached cfg levels brackets evs in
+  running st t -> (1 <= r < c_max_t cfg)%Z -> assoc_get (s_task st) t = Some b ->
+  nth_error (s_sys st) (sys_id cfg b) = Some sys ->
+  milestone_rungs (skip_of cfg b) (rs_rungs sys) = pre ++ rg :: post ->
+  r_level rg = r -> ~ In t (trial_ids rg) ->
+  let base := rule_b (c_mode cfg) (r_quant rg) (m :: metrics (r_data rg)) m in
+  let th := th_get (rs_thr sys) r in
+  let continues := base && ((t <? n)%Z || meets_threshold (c_mode cfg) th m) in
+  snd (on_trial_result cfg st t r m) = Dec (if continues then CONTINUE else STOP) /\
+  exists sys', nth_error (s_sys (fst (on_trial_result cfg st t r m))) (sys_id cfg b) = Some sys' /\
+    rs_thr sys' = (if base && (t <? n)%Z then th_set (rs_thr sys) r (return_better (c_mode cfg) th m)
+                   else rs_thr sys).
+Proof. exact c03_rush_rule_at_rung. Qed.
+Print Assumptions c03_rush_decision_rule.
+
+(* non-vacuity: rung levels 1,3 below max_t 9, two brackets sharing one system; three trials
+   report at level 1 (q = 1/3) 5, 7, 5: the third continues (5 <= quantile 5), a fourth
+   reporting 8 is stopped (quantile of 5,7,8 is 19/3); trial 3 in bracket 1 takes no decision at level 1 *)
+Example c03_example :
+  let cfg := {| c_mode := Min; c_max_t := 9; c_per_bracket := false; c_rush := None |} in
+  let evs := [EvSuggest 0 0; EvSuggest 1 0; EvSuggest 2 0; EvSuggest 3 1; EvSuggest 4 0;
+              EvReport 0 1 5; EvReport 1 1 7; EvReport 3 1 100] in
+  let st := reached cfg [1; 3]%Z 2 evs in
+  wf_levels [1; 3]%Z (c_max_t cfg) /\ running st 2 /\ running st 3 /\
+  snd (on_trial_result cfg st 2 1 5) = Dec CONTINUE /\
+  snd (on_trial_result cfg st 4 1 8) = Dec STOP /\
+  snd (on_trial_result cfg st 3 1 100) = Dec CONTINUE /\
+  snd (on_trial_result cfg st 2 9 0) = Dec STOP.
+Proof.
+  vm_compute. repeat split; try reflexivity; repeat constructor; try discriminate.
+Qed.
